@@ -86,17 +86,27 @@ TestClause(e, o, rr) ==
         ELSE IF o.r = x THEN "ok"
         ELSE IF e.truth = "prime" THEN "declares a prime composite"
         ELSE IF x = 0 THEN "declares a composite probably prime" ELSE "declares composite although every round passes"
-GenClause(e, o) == \* generate_probable_prime / generate_probable_safe_prime (exact_bits = e.bits)
-   IF e.op = "generate_probable_prime" /\ e.bits < 160 THEN (IF o.ex = "ValueError" THEN "ok" ELSE IF o.ex = "none" THEN "returns a value where none is documented" ELSE "raises " \o o.ex \o " instead of ValueError")
+\* sizes for which no result is documented: Primality.generate_probable_prime below 160 bits, number.getPrime below 2 bits,
+\* number.getStrongPrime below 512 bits or not a multiple of 128
+GenRefused(e) == \/ e.op = "generate_probable_prime" /\ e.bits < 160
+                 \/ e.op = "number_getPrime" /\ e.bits < 2
+                 \/ e.op = "number_getStrongPrime" /\ (e.bits < 512 \/ e.bits % 128 # 0)
+GenClause(e, o) == \* generate_probable_prime / generate_probable_safe_prime (exact_bits = e.bits), Util.number.getPrime / getStrongPrime (N = e.bits)
+   IF GenRefused(e) THEN (IF o.ex = "ValueError" THEN "ok" ELSE IF o.ex = "none" THEN "returns a value where none is documented" ELSE "raises " \o o.ex \o " instead of ValueError")
    ELSE IF o.ex # "none" THEN "raises " \o o.ex \o " where a result exists"
    ELSE IF o.tn # "Integer" THEN "returns " \o o.tn \o " instead of Integer"
    ELSE IF ~BnIsNat(o.v) THEN "harness: malformed integer in the trace"
    ELSE IF BnBitLen(o.v) # e.bits THEN "generated prime does not have the requested bit size"
    ELSE IF ~BnIsOdd(o.v) THEN "generated prime is even"
    ELSE IF e.op = "generate_probable_safe_prime" /\ BnLowBits(o.v, 2) # 3 THEN "generated safe prime is not 3 mod 4"
+   \* the recorder's independent test found the number composite and supplies one Miller-Rabin round, checked here link by link
+   ELSE IF Len(o.comp) > 0 /\ BnCmp(o.v, <<4>>) > 0 /\ MrRound(o.v, o.comp[1]) = "witness" THEN "generated number is composite (certified Miller-Rabin witness)"
+   ELSE IF Len(o.v) <= 2 /\ ~BnIsSmallPrime(BnToInt(o.v)) THEN "generated number is composite (trial division)"
+   \* getStrongPrime(N, e): p - 1 coprime to e; e.iters carries e, a prime below 2^19 in the recorded jobs
+   ELSE IF e.op = "number_getStrongPrime" /\ e.iters > 1 /\ BnDivSmall(BnSub(o.v, <<1>>), e.iters)[2] = 0 THEN "p - 1 is not coprime to e"
    ELSE "ok"
 PrimeVerdict(e) ==
-   IF e.op \in {"generate_probable_prime", "generate_probable_safe_prime"}
+   IF e.op \in {"generate_probable_prime", "generate_probable_safe_prime", "number_getPrime", "number_getStrongPrime"}
    THEN Joined([i \in 1..Len(e.obs) |-> <<e.obs[i].who, GenClause(e, e.obs[i])>>])
    ELSE IF e.op \notin {"miller_rabin_test", "lucas_test", "test_probable_prime"} THEN "harness: unknown operation"
    ELSE IF ~BnIsNat(e.cand) \/ BnCmp(e.cand, <<2>>) < 0 THEN "harness: malformed candidate"
